@@ -1,3 +1,4 @@
+import SemVerif.Spec.ExtVisit
 import SemVerif.Spec.Stack
 import SemVerif.Spec.RuleSet
 import SemVerif.Spec.Findings
@@ -157,6 +158,17 @@ def P_C19 (p : Program) (r : Result) : List String :=
       if want == got then [] else [s!"c19:fn{i}:extension-instructions:{got}:expected:{want}"])
    else []) ++
   (r.roots.zipIdx.flatMap fun (b, i) => if b.subseqOk then [] else [s!"c19:fn{i}:extension-instruction-missing-in-ancestor"])
+
+/-- every program that does not panic, accepted or not: the extension instructions of each function
+stack are the leaves the analysis evaluates (`visFn`: operands to the right of a failing operand
+are skipped, everything else is evaluated once, in order).  Validated only — theorem `C19` covers
+the accepted programs. -/
+def P_C19_visited (p : Program) (r : Result) : List String :=
+  if r.panic.isSome then [] else
+  (p.fnDecls.zip r.roots).zipIdx.flatMap fun ((f, b), i) =>
+    let want := visFn p.rglobals f
+    let got := b.context.filterMap Instr.extTag
+    if want == got then [] else [s!"c19:fn{i}:extension-leaves-evaluated:{got}:expected:{want}"]
 
 def isExtInstr : Instr → Bool
   | .ext _ _ _ => true
